@@ -11,8 +11,13 @@ import (
 	"fmt"
 	"io"
 	"os"
+	"path/filepath"
+	"strings"
 
 	"github.com/ozontech/seq-db/frac"
+	"github.com/ozontech/seq-db/verifhook"
+
+	"verifharness/cases"
 
 	"verifharness/env"
 )
@@ -108,5 +113,98 @@ func main() {
 	for _, k := range swallowed {
 		emit(map[string]any{"n": k, "what": fmt.Sprintf("write %d of %d of the index output failed but the sealing writer reported success", k, w), "writes": w})
 	}
-	emit(map[string]any{"summary": true, "cases": w, "evals": w, "nontrivial": w, "corpora": 1, "writes": w, "swallowed": swallowed})
+	renames := renameFaults()
+	emit(map[string]any{"summary": true, "cases": w + renames, "evals": w + renames, "nontrivial": w + renames, "corpora": 1, "writes": w, "swallowed": swallowed, "rename_faults": renames})
+}
+
+// renameFaults: the rename of a synced temp output to its final name fails (the final name is occupied by a
+// non-empty directory, created in the hook between the sync and the rename). The real frac.Seal must report an
+// error, publish nothing and leave the originals alone; after the obstacle is gone and the store restarted, every
+// document is served and the fraction can be sealed.
+func renameFaults() int {
+	n := 0
+	for _, skip := range []bool{false, true} {
+		for _, target := range []string{"._sdocs", "._index"} {
+			if skip && target == "._sdocs" {
+				continue
+			}
+			n++
+			tag := fmt.Sprintf("rename of %s fails (skipSortDocs=%v)", target, skip)
+			fail := func(what string) { emit(map[string]any{"n": -n, "what": tag + ": " + what, "fault": "rename"}) }
+			e, err := env.New(env.Opts{SkipFsync: true, SkipSortDocs: skip})
+			if err != nil {
+				emit(map[string]any{"infra": err.Error()})
+				os.Exit(3)
+			}
+			var bulk []env.Doc
+			for i := 0; i < 300; i++ {
+				bulk = append(bulk, env.Doc{MID: uint64(1000 + i/10), RID: uint64(i + 1), Tok: map[string][]string{"k": {"all"}}, Body: fmt.Sprintf(`{"i":%d}`, i)})
+			}
+			if err := e.Bulk(bulk); err != nil {
+				emit(map[string]any{"infra": "bulk: " + err.Error()})
+				os.Exit(3)
+			}
+			e.WaitIdle()
+			act := e.FM().VerifActive()
+			base := act.BaseFileName
+			final := base + map[string]string{"._sdocs": ".sdocs", "._index": ".index"}[target]
+			blocked := false
+			verifhook.Set(func(point string, obj any, a, b int64) {
+				if name, _ := obj.(string); point == "file.sync" && strings.HasSuffix(name, target) && strings.HasPrefix(name, base) {
+					os.Mkdir(final, 0o755)
+					os.WriteFile(filepath.Join(final, "occupied"), []byte("x"), 0o644)
+					blocked = true
+				}
+			})
+			err = func() (err error) {
+				defer func() {
+					if r := recover(); r != nil {
+						err = fmt.Errorf("panic: %v", r)
+					}
+				}()
+				_, err = frac.Seal(act, frac.SealParams{IDsZstdLevel: 1, LIDsZstdLevel: 1, TokenListZstdLevel: 1, DocsPositionsZstdLevel: 1, TokenTableZstdLevel: 1})
+				return err
+			}()
+			verifhook.Set(nil)
+			switch {
+			case !blocked:
+				emit(map[string]any{"infra": tag + ": the hook between sync and rename was not reached"})
+				os.Exit(3)
+			case err == nil:
+				fail("frac.Seal reported success")
+			}
+			if st, e2 := os.Stat(final); e2 != nil || !st.IsDir() {
+				fail("the final name was replaced although the rename could not succeed")
+			}
+			for _, suf := range []string{".docs", ".meta"} {
+				if env.FileSize(base+suf) <= 0 {
+					fail("original file " + suf + " is gone or empty after the failed seal")
+				}
+			}
+			os.RemoveAll(final)
+			e.Halt()
+			if err := e.Reopen(); err != nil {
+				fail("the store does not come back after the failed seal: " + err.Error())
+				continue
+			}
+			count := func() int {
+				lit := &cases.AST{Op: "lit", F: "k", Terms: []cases.Str{{"a", "l", "l"}}}
+				a, _ := lit.Build()
+				r, err := e.SearchAST(a, env.Params{From: 0, To: 1 << 40, Limit: 1000, Order: "desc", WithTotal: true})
+				if err != nil {
+					return -1
+				}
+				return len(r.IDs)
+			}
+			if c := count(); c != 300 {
+				fail(fmt.Sprintf("after the restart %d of 300 documents are served", c))
+			}
+			e.Seal()
+			if c := count(); c != 300 {
+				fail(fmt.Sprintf("after sealing again %d of 300 documents are served", c))
+			}
+			e.Close()
+		}
+	}
+	return n
 }
